@@ -48,10 +48,22 @@ pub struct DOp {
 }
 
 #[derive(Clone, Debug, Serialize, Deserialize, PartialEq)]
+pub enum Scripted {
+    /// A single chain of `depth` nested instances (no recursion allowed anywhere).
+    DeepChain { depth: u32 },
+    /// About `n` instances, built from wide-and-deep builders of up to 500 nodes.
+    Big { n: u32, seed: u64 },
+}
+
+#[derive(Clone, Debug, Serialize, Deserialize, PartialEq)]
 pub struct DomTrace {
     pub n_doms: u8,
     pub uid_mode: bool,
     pub ops: Vec<DOp>,
+    /// Scale scenarios that are judged by counting and spot checks on the real
+    /// DOMs (the step-by-step model is for small worlds).
+    #[serde(default)]
+    pub scripted: Option<Scripted>,
 }
 
 // ---------------------------------------------------------------------------
@@ -676,7 +688,7 @@ impl DomSim {
                 serial += 1;
             }
         }
-        DomTrace { n_doms: n_doms as u8, uid_mode, ops }
+        DomTrace { n_doms: n_doms as u8, uid_mode, ops, scripted: None }
     }
 
     // -- execution -------------------------------------------------------------
@@ -1595,6 +1607,200 @@ impl DomSim {
     }
 }
 
+/// descendants_of(start) against an independent walk over children():
+/// every reachable instance exactly once, parents before children.
+fn check_descendants_real(dom: &WeakDom, start: Ref) -> Option<(String, String)> {
+    let reach = real_subtree(dom, start);
+    let reach_set: BTreeSet<u128> = reach.iter().map(|r| ref_key(*r)).collect();
+    let mut yielded: BTreeSet<u128> = BTreeSet::new();
+    let mut count = 0usize;
+    for inst in dom.descendants_of(start) {
+        count += 1;
+        if count > reach.len() + 5 {
+            return Some(("descendants|yields-too-many".into(), format!("descendants_of yields more than the {} reachable instances", reach.len())));
+        }
+        if inst.referent() != start && !yielded.contains(&ref_key(inst.parent())) {
+            return Some(("descendants|child-before-parent".into(), format!("descendants_of yielded {} before its parent", inst.name)));
+        }
+        if !yielded.insert(ref_key(inst.referent())) {
+            return Some(("descendants|yields-twice".into(), format!("descendants_of yielded {} twice", inst.name)));
+        }
+    }
+    if yielded != reach_set {
+        return Some(("descendants|misses-reachable".into(), format!("descendants_of yielded {} instances, {} are reachable", yielded.len(), reach_set.len())));
+    }
+    None
+}
+
+impl DomSim {
+    /// Scale scenarios: tens of thousands of instances, or nesting tens of
+    /// thousands deep. Judged on the real DOMs by counting and by comparing
+    /// with independent walks; every property uses its own subset.
+    fn exec_scripted(&self, sc: &Scripted, ctx: &mut RunCtx) {
+        let prop = ctx.property.clone();
+        let mut a = WeakDom::new(InstanceBuilder::new("DataModel"));
+        let mut b = WeakDom::new(InstanceBuilder::new("DataModel"));
+        let root = a.root_ref();
+        let mut all: Vec<Ref> = Vec::new();
+        let scen = match sc {
+            Scripted::DeepChain { .. } => "deep-chain",
+            Scripted::Big { .. } => "big-dom",
+        };
+        // ---- build (iteratively; the harness itself never recurses) ----
+        match sc {
+            Scripted::DeepChain { depth } => {
+                let mut parent = root;
+                for i in 0..*depth {
+                    ctx.evals += 1;
+                    if i % 256 == 0 {
+                        crate::engine::tick();
+                    }
+                    parent = a.insert(parent, InstanceBuilder::new("Folder").with_name(format!("c{}", i)));
+                    all.push(parent);
+                }
+            }
+            Scripted::Big { n, seed } => {
+                let mut r = Rng::new(*seed);
+                let mut made = 0u32;
+                while made < *n {
+                    crate::engine::tick();
+                    // a builder of up to 500 nodes: a few levels, wide
+                    let size = r.range(200, 500) as usize;
+                    let mut nodes: Vec<Option<InstanceBuilder>> = (0..size).map(|i| Some(InstanceBuilder::new("Folder").with_name(format!("n{}_{}", made, i)))).collect();
+                    let mut parent_of = vec![0usize; size];
+                    for (i, p) in parent_of.iter_mut().enumerate().skip(1) {
+                        *p = if r.chance(2, 3) { r.usize_below(i.min(8)) } else { r.usize_below(i) };
+                    }
+                    for i in (1..size).rev() {
+                        let child = nodes[i].take().unwrap();
+                        let mut p = nodes[parent_of[i]].take().unwrap();
+                        p.add_child(child);
+                        nodes[parent_of[i]] = Some(p);
+                    }
+                    let parent = if all.is_empty() || r.chance(1, 3) { root } else { *r.pick(&all) };
+                    ctx.evals += 1;
+                    let top = a.insert(parent, nodes[0].take().unwrap());
+                    for x in real_subtree(&a, top) {
+                        all.push(x);
+                    }
+                    made += size as u32;
+                }
+            }
+        }
+        let total = all.len();
+        ctx.add("scale_instances_built", total as u64);
+        let count_reachable = |d: &WeakDom, s: Ref| real_subtree(d, s).len();
+        if count_reachable(&a, root) != total + 1 {
+            if prop == "C10" {
+                ctx.violate(format!("effect|scale:{}:insert-lost-or-duplicated-instances", scen), format!("{} instances inserted, {} reachable", total, count_reachable(&a, root) - 1));
+            }
+            return;
+        }
+        if prop == "C09" {
+            for start in [root, all[0], all[total / 2], all[total - 1]] {
+                if let Some((k, m)) = check_descendants_real(&a, start) {
+                    ctx.violate(format!("{}|scale:{}", k, scen), m);
+                    return;
+                }
+            }
+        }
+        // ---- clone a large subtree within the DOM (C11) ----
+        let big_root = all[0];
+        let sub_before = count_reachable(&a, big_root);
+        ctx.evals += 1;
+        crate::engine::tick();
+        let copy = match crate::panic::catch(|| a.clone_within(big_root)) {
+            Ok(c) => c,
+            Err(p) => {
+                if prop == "C11" {
+                    ctx.violate(p.key, format!("clone_within of a {}-instance subtree panicked: {}", sub_before, p.message));
+                }
+                return;
+            }
+        };
+        if prop == "C11" {
+            let orig = real_subtree(&a, big_root);
+            let cl = real_subtree(&a, copy);
+            if orig.len() != cl.len() {
+                ctx.violate(format!("clone|scale:{}:shape-differs", scen), format!("the copy has {} instances, the original {}", cl.len(), orig.len()));
+                return;
+            }
+            for (o, c) in orig.iter().zip(cl.iter()) {
+                let (oi, ci) = (a.get_by_ref(*o).unwrap(), a.get_by_ref(*c).unwrap());
+                if oi.name != ci.name || oi.children().len() != ci.children().len() {
+                    ctx.violate(format!("clone|scale:{}:shape-differs", scen), format!("copy of {} is {} with {} children instead of {}", oi.name, ci.name, ci.children().len(), oi.children().len()));
+                    return;
+                }
+            }
+            if a.get_by_ref(copy).map(|i| i.parent().is_some()).unwrap_or(true) {
+                ctx.violate(format!("clone|scale:{}:root-has-parent", scen), "the copy has a parent".to_string());
+                return;
+            }
+        }
+        // ---- destroy the copy again, then part of the original (C09 / C10) ----
+        ctx.evals += 1;
+        crate::engine::tick();
+        let copy_nodes = real_subtree(&a, copy);
+        if let Err(p) = crate::panic::catch(|| a.destroy(copy)) {
+            if prop == "C10" {
+                ctx.violate(p.key, format!("destroy of a {}-instance subtree panicked: {}", copy_nodes.len(), p.message));
+            }
+            return;
+        }
+        if prop == "C09" && copy_nodes.iter().any(|r| a.get_by_ref(*r).is_some()) {
+            ctx.violate(format!("forest|scale:{}:removed-instance-still-resolves", scen), "an instance of the destroyed copy still resolves".to_string());
+            return;
+        }
+        if prop == "C10" && count_reachable(&a, root) != total + 1 {
+            ctx.violate(format!("effect|scale:{}:destroy-removed-wrong-set", scen), format!("after destroying the copy {} instances are reachable, expected {}", count_reachable(&a, root) - 1, total));
+            return;
+        }
+        let victim = all[total / 2];
+        let victim_size = count_reachable(&a, victim);
+        ctx.evals += 1;
+        crate::engine::tick();
+        if let Err(p) = crate::panic::catch(|| a.destroy(victim)) {
+            if prop == "C10" {
+                ctx.violate(p.key, format!("destroy of a {}-instance subtree panicked: {}", victim_size, p.message));
+            }
+            return;
+        }
+        let left = total - victim_size;
+        if prop == "C10" && count_reachable(&a, root) != left + 1 {
+            ctx.violate(format!("effect|scale:{}:destroy-removed-wrong-set", scen), format!("after destroy {} instances are reachable, expected {}", count_reachable(&a, root) - 1, left));
+            return;
+        }
+        // ---- transfer what is left of the first subtree into the other DOM ----
+        if big_root != victim && a.get_by_ref(big_root).is_some() {
+            let moving = count_reachable(&a, big_root);
+            let broot = b.root_ref();
+            ctx.evals += 1;
+            crate::engine::tick();
+            if let Err(p) = crate::panic::catch(|| a.transfer(big_root, &mut b, broot)) {
+                if prop == "C10" {
+                    ctx.violate(p.key, format!("transfer of a {}-instance subtree panicked: {}", moving, p.message));
+                }
+                return;
+            }
+            let (na, nb) = (count_reachable(&a, root) - 1, count_reachable(&b, broot) - 1);
+            if prop == "C10" && (nb != moving || na + nb != left) {
+                ctx.violate(format!("effect|scale:{}:transfer-does-not-conserve-instances", scen), format!("{} instances before, {} + {} after, {} were to move", left, na, nb, moving));
+                return;
+            }
+            if prop == "C09" {
+                for (d, s) in [(&a, root), (&b, broot)] {
+                    if let Some((k, m)) = check_descendants_real(d, s) {
+                        ctx.violate(format!("{}|scale:{}", k, scen), m);
+                        return;
+                    }
+                }
+            }
+        }
+        ctx.distinct.insert(crate::prng::digest_bytes(format!("{:?}", sc).as_bytes()));
+        ctx.log.u64(total as u64);
+    }
+}
+
 impl World {
     fn name_of(&self, r: Ref) -> String {
         for (id, rr) in &self.ref_of {
@@ -1654,8 +1860,18 @@ impl Engine for DomSim {
         "domsim"
     }
 
-    fn generate(&self, run_seed: u64, _index: u64, property: &str, thorough: bool) -> Value {
+    fn generate(&self, run_seed: u64, index: u64, property: &str, thorough: bool) -> Value {
         let _ = &self.cat;
+        let scripted = match index {
+            0 => Some(Scripted::DeepChain { depth: if thorough { 100_000 } else { 30_000 } }),
+            1 => Some(Scripted::Big { n: 6_000, seed: run_seed }),
+            2 => Some(Scripted::Big { n: if thorough { 70_000 } else { 9_000 }, seed: run_seed ^ 1 }),
+            3 => Some(Scripted::DeepChain { depth: 4_100 }),
+            _ => None,
+        };
+        if let Some(sc) = scripted {
+            return serde_json::to_value(&DomTrace { n_doms: 2, uid_mode: false, ops: vec![], scripted: Some(sc) }).unwrap();
+        }
         let mut r = Rng::new(run_seed);
         serde_json::to_value(&self.gen_history(&mut r, property, thorough)).unwrap()
     }
@@ -1668,6 +1884,11 @@ impl Engine for DomSim {
                 return;
             }
         };
+        if let Some(sc) = &t.scripted {
+            ctx.count("scripted_scale_scenarios");
+            self.exec_scripted(sc, ctx);
+            return;
+        }
         ctx.count(if t.uid_mode { "histories_with_unique_ids" } else { "histories_without_unique_ids" });
         self.exec(&t, ctx);
     }
@@ -1678,6 +1899,19 @@ impl Engine for DomSim {
             Err(_) => return vec![],
         };
         let mut out: Vec<DomTrace> = Vec::new();
+        match &t.scripted {
+            Some(Scripted::DeepChain { depth }) if *depth > 2 => {
+                for d in [depth / 2, depth - depth / 8 - 1] {
+                    out.push(DomTrace { scripted: Some(Scripted::DeepChain { depth: d }), ..t.clone() });
+                }
+            }
+            Some(Scripted::Big { n, seed }) if *n > 20 => {
+                for m in [n / 2, n - n / 8 - 1] {
+                    out.push(DomTrace { scripted: Some(Scripted::Big { n: m, seed: *seed }), ..t.clone() });
+                }
+            }
+            _ => {}
+        }
         // drop the tail, then single operations
         if t.ops.len() > 1 {
             let mut c = t.clone();
@@ -1726,6 +1960,15 @@ impl Engine for DomSim {
             }
         }
         out.into_iter().map(|t| serde_json::to_value(&t).unwrap()).collect()
+    }
+
+    fn abort_key(&self, trace: &Value, how: &str) -> String {
+        let t: Option<DomTrace> = serde_json::from_value(trace.clone()).ok();
+        match t.and_then(|t| t.scripted) {
+            Some(Scripted::DeepChain { .. }) => format!("abort|{}|domsim|deep-chain", how),
+            Some(Scripted::Big { .. }) => format!("abort|{}|domsim|big-dom", how),
+            None => format!("abort|{}|domsim", how),
+        }
     }
 
     fn distinct_rule(&self, property: &str) -> String {
